@@ -17,6 +17,11 @@ CHECKS = {
          'BFS over every history (quick: depth 5 or the depth completed within the wall cap; thorough: depth 8 under a 40 min cap) of {init smallest/all, init-invoice, lock, receive, finalize, cancel, post, mine, refresh} on two slate slots of a wallet with three mature outputs, every step a call of the real libwallet API against a real grin chain. Invariant in every state: input sets of live TxSent entries (from stored context, stored tx file and the harness lock record) are pairwise disjoint; postcondition: a repeated lock/receive/finalize is refused or changes nothing; refused steps change nothing.',
          'Two slates, one account, three outputs; completed depth reported in evidence. State identity is a projection without timestamps/nonces.',
          'DESIGN.md §3 C03'),
+ 'C05': ('model_checking',
+         'exhaustive scenario enumeration on real two-wallet worlds with an exact-diff oracle between snapshots',
+         'Every scenario of the product kind {sent, received, invoice payer, invoice issuer, late-locked, self-send sent/received side, sent spending an unconfirmed output (min_conf 0)} x change count {0,1,2} x stage {early, mid, finalized-not-posted} x other pending transactions {0,1,3} x addressing {log id, slate id} (quick: a stated sub-product) plus five refusal cases is executed on a real chain and real LMDB wallets; snapshots before creation, before cancel and after cancel are compared against the exact diff the statement allows (outputs, log entries, contexts, balances at min_conf 0/1/10, counterparty untouched).',
+         'Scenario space is a fixed finite product; a refused cancel of a cancellable transaction is an outcome, not a violation.',
+         'DESIGN.md §3 C05'),
  'C19': ('model_checking',
          'exhaustive small-scope input enumeration of the real query path against a reference filter',
          'Every query of a stated finite space (all single fields, all pairs, full flag product, sort x order x limit x every single filter; thorough: all triples and pairs x sort/limit) is executed through owner::retrieve_txs on a real LMDB wallet holding two discriminating 11-entry, 3-account logs and compared with a reference filter written from the field documentation (MUST <= result <= MAY, order, limit-as-prefix). Exhaustive within that scope; nothing sampled.',
